@@ -148,7 +148,7 @@ func (g *vgen) value(typ reflect.Type, depth int) reflect.Value {
 		} else {
 			out.SetInt(int64(rapid.Int32().Draw(t, "i32")))
 		}
-	case reflect.Int64:
+	case reflect.Int64, reflect.Int:
 		if g.zero() {
 			break
 		}
@@ -170,7 +170,7 @@ func (g *vgen) value(typ reflect.Type, depth int) reflect.Value {
 		} else {
 			out.SetUint(uint64(rapid.Uint32().Draw(t, "u32")))
 		}
-	case reflect.Uint64:
+	case reflect.Uint64, reflect.Uint:
 		if g.zero() {
 			break
 		}
